@@ -1358,16 +1358,40 @@ pub async fn run_conn(ctx: Rc<Ctx>, cmds: Vec<Value>) {
             "in" => {
                 // one or several packet descriptors written in one transport write, optional cuts
                 let mut bytes = Vec::new();
+                let mut descs: Vec<&Value> = Vec::new();
                 if let Some(arr) = c.get("pkts").and_then(Value::as_array) {
-                    for p in arr {
-                        bytes.extend(tok::build(ver_of(p, ver), p));
-                    }
+                    descs.extend(arr.iter());
                 } else if let Some(p) = c.get("p") {
-                    bytes = tok::build(ver_of(p, ver), p);
+                    descs.push(p);
                 }
-                for t in tok_in.feed(&bytes) {
-                    peer.note_in(&t);
-                    ctx.emit(tok_ev("in", &t));
+                for p in descs {
+                    let b = tok::build(ver_of(p, ver), p);
+                    match p.get("t").and_then(Value::as_str).unwrap_or("") {
+                        // the `in` event of a PUBLISH is the moment its header is written, also
+                        // when only a part of the declared payload goes with it
+                        "publish" => {
+                            let q = p.get("q").and_then(Value::as_i64).unwrap_or(0);
+                            ctx.emit(
+                                Ev::new("in")
+                                    .k("PUBLISH")
+                                    .id(if q > 0 { p.get("id").and_then(Value::as_i64).unwrap_or(1) } else { 0 })
+                                    .q(q)
+                                    .n(p.get("plen").and_then(Value::as_i64).unwrap_or(0))
+                                    .s(p.get("alias").and_then(Value::as_i64).unwrap_or(0))
+                                    .r(p.get("dup").and_then(Value::as_i64).unwrap_or(0) * 2
+                                        + p.get("retain").and_then(Value::as_i64).unwrap_or(0))
+                                    .x(p.get("topic").and_then(Value::as_str).unwrap_or("t")),
+                            );
+                        }
+                        "payload" => ctx.emit(Ev::new("in_chunk").n(b.len() as i64)),
+                        _ => {
+                            for t in tok_in.feed(&b) {
+                                peer.note_in(&t);
+                                ctx.emit(tok_ev("in", &t));
+                            }
+                        }
+                    }
+                    bytes.extend(b);
                 }
                 let cuts: Vec<usize> = c
                     .get("cuts")
